@@ -349,6 +349,33 @@ func Schema() *graphql.Schema {
 			defer w.mu.Unlock()
 			return w.F, nil
 		})
+		// fields with arguments: what a subscription sees depends on its variables
+		q.FieldFunc("plus", func(ctx context.Context, args struct{ N int64 }) (int64, error) {
+			w := worldOf(ctx)
+			if err := w.read(ctx, "a"); err != nil {
+				return 0, err
+			}
+			argUsed(ctx, "plus", args.N)
+			w.mu.Lock()
+			defer w.mu.Unlock()
+			return w.A + args.N, nil
+		})
+		q.FieldFunc("item", func(ctx context.Context, args struct{ Id int64 }) (*Item, error) {
+			w := worldOf(ctx)
+			if err := w.read(ctx, "items"); err != nil {
+				return nil, err
+			}
+			argUsed(ctx, "item", args.Id)
+			w.mu.Lock()
+			defer w.mu.Unlock()
+			for i := range w.Items {
+				if w.Items[i].Id == args.Id {
+					c := w.Items[i]
+					return &c, nil
+				}
+			}
+			return nil, nil
+		})
 		q.FieldFunc("tick", func(ctx context.Context) (int64, error) {
 			w := worldOf(ctx)
 			if err := w.read(ctx, "tick"); err != nil {
@@ -401,6 +428,13 @@ func Schema() *graphql.Schema {
 		schema = sb.MustBuild()
 	})
 	return schema
+}
+
+// argUsed records the argument value a resolver was called with, and in which computation.
+func argUsed(ctx context.Context, field string, v int64) {
+	if tok, _ := ctx.Value(runKey{}).(*RunTok); tok != nil {
+		worldOf(ctx).rec.add(Event{Kind: "arg", Field: field, Run: tok.N, Gen: tok.Gen, Ver: int(v)})
+	}
 }
 
 // mutExec records that a mutation resolver ran, and in which computation.
@@ -473,6 +507,8 @@ var SubQueries = []string{
 	`{ tick a }`,
 	`{ f a }`,
 	`{ f s items { id } }`,
+	`query P($n: int64!) { plus(n: $n) s }`,
+	`query I($id: int64!) { item(id: $id) { id name n } flag }`,
 	// rejected by Parse / PrepareQuery
 	`{ nope }`,
 	`{ a `,
@@ -480,7 +516,18 @@ var SubQueries = []string{
 	`{ items }`,
 }
 
-const FirstBadSubQuery = 12
+const FirstBadSubQuery = 14
+
+// QueryVar names the variable of a query text of SubQueries ("" if it has none).
+func QueryVar(q int) string {
+	switch q % len(SubQueries) {
+	case 12:
+		return "n"
+	case 13:
+		return "id"
+	}
+	return ""
+}
 
 var MutQueries = []string{
 	`mutation { setA(value: 7) }`,
@@ -497,8 +544,8 @@ const FirstBadMutQuery = 5
 
 // Verdict of Parse + PrepareQuery on a query text, computed by the harness itself (independent of the
 // connection): ok, or the sanitized message the client must be sent.
-func QueryVerdict(text string, mutation bool) (bool, string) {
-	q, err := graphql.Parse(text, nil)
+func QueryVerdict(text string, mutation bool, vars map[string]interface{}) (bool, string) {
+	q, err := graphql.Parse(text, vars)
 	if err != nil {
 		return false, graphql.SanitizeError(err)
 	}
@@ -513,13 +560,13 @@ func QueryVerdict(text string, mutation bool) (bool, string) {
 }
 
 // FreshExecute runs the query once, outside any rerunner, on the current data.
-func FreshExecute(w *World, text string) (res interface{}, err error) {
+func FreshExecute(w *World, text string, vars map[string]interface{}) (res interface{}, err error) {
 	defer func() {
 		if p := recover(); p != nil {
 			err = fmt.Errorf("panic: %v", p)
 		}
 	}()
-	q, err := graphql.Parse(text, nil)
+	q, err := graphql.Parse(text, vars)
 	if err != nil {
 		return nil, err
 	}
